@@ -61,3 +61,9 @@ package capacity
 //@   assert-at call spacePlotter plotter-registered-before-it-is-started: wgCount[addr(sk.wg)] == old(wgCount[addr(sk.wg)]) + 1
 //@ func (*SpaceKeeper).spacePlotter
 //@   assert-at call? Add the-goroutine-does-not-register-itself-with-the-keeper: arg0 != addr(sk.wg)
+
+// the proof queries take their selection through selectWorkSpaces and hold no keeper lock themselves
+//@ func (*SpaceKeeper).GetProofs
+//@   requires lock-entry: sk != nil && skUnlocked(sk)
+//@ func (*SpaceKeeper).GetProofsReader
+//@   requires lock-entry: sk != nil && skUnlocked(sk)
